@@ -81,6 +81,15 @@ impl<K: Clone + PartialEq + Eq + Hash + std::fmt::Debug + std::cmp::PartialOrd, 
             }
         }
 
+        // A dirty victim stays visible until it has been written back (it
+        // is clean then and goes away with a later commit): if it were gone
+        // already, a lookup racing with the write-back would load the old
+        // state of the slice from disk, and that stale copy would later be
+        // flushed over the newer one.
+        for (key, value) in vec.iter() {
+            r.insert(key.clone(), Arc::clone(value));
+        }
+
         for (key, value) in w.drain() {
             r.insert(key, value);
         }
